@@ -8,6 +8,7 @@ import (
 	"context"
 	"errors"
 	"fmt"
+	"regexp"
 	"runtime"
 	"sync"
 	"sync/atomic"
@@ -393,6 +394,9 @@ func RunCase(cs hx.Sx) hx.Sx {
 			},
 			MetricName: fmt.Sprintf("a%d", i),
 			MatchMode:  pipeline.MatchModeAnd,
+			// action i applies to an event iff the i-th character of its "m" field is not '0' (no field: applies);
+			// the processor consults this only while the action holds nothing
+			MatchConditions: pipeline.MatchConditions{{Field: []string{"m"}, Regexp: regexp.MustCompile(fmt.Sprintf("^(.{0,%d}|.{%d}[^0].*)$", i, i))}},
 		})
 	}
 	out := &fakeOutput{log: log, cfg: oc}
